@@ -388,10 +388,17 @@ func replay(path string) {
 	cmd := exec.Command(bin, "-test.run", "^Test"+rep.Property+"$", "-test.cpu", "1", "-test.timeout", "0")
 	cmd.Dir = filepath.Join(verifDir, "checks")
 	cmd.Env = append(append(env(), "VERIF_PROP="+rep.Property, "VERIF_REPLAY="+abs, "GODEBUG=asyncpreemptoff=1"), envx...)
-	cmd.Stdout, cmd.Stderr = os.Stdout, os.Stderr
+	var buf bytes.Buffer
+	cmd.Stdout, cmd.Stderr = &buf, &buf
 	err = cmd.Run()
+	os.Stdout.Write(buf.Bytes())
 	if err == nil {
 		os.Exit(0)
+	}
+	outs := buf.String()
+	if meta.CrashIsViolation && !strings.Contains(outs, "VIOLATION property=") && (strings.Contains(outs, "panic:") || strings.Contains(outs, "fatal error:")) {
+		fmt.Printf("VIOLATION property=%s replay=%s\n  class=process-crash detail=%s\n", rep.Property, path, firstLine(outs, "panic:", "fatal error:"))
+		os.Exit(1)
 	}
 	if ee, ok := err.(*exec.ExitError); ok {
 		os.Exit(ee.ExitCode())
